@@ -8,6 +8,7 @@ from ..cfg import calls_at, call_attr, is_self_attr
 from ..state import Analysis, State, TOP, sched_calls, sched_event_type, sched_action_name, bind_call, SCHED_PARAMS
 from ..norm import Normalizer, cmp_norm, cmp_polarity, FrameEnv, ctext
 from .. import inventory as inv
+from .. import devices as dv
 
 EXPLANATION = '''
 Static analysis of simprocesd/model/factory_floor/action_scheduler.py.
@@ -186,38 +187,74 @@ def check(ctx):
     # ---- C18.3 -------------------------------------------------------------------------------------
     o = Ob('C18.3', 'K2', 'for every (object, override) in registration order: default_action(object, now, state) without override, override(scheduler, object, now, state) with one')
     obs.append(o)
-    loops = []
-    for n_ in g.nodes.values():
-        if n_.kind == 'for' and '_registered_objects' in ctext(n_.ast.iter, FrameEnv(n_.frame)) and n_.ast not in loops:
-            loops.append(n_.ast)
+    # one iteration of the loop over the registered objects is explored (L9) for both values of the ghost "this object has an override":
+    # exactly one call happens, the right one with the right arguments -- whichever branch comes first and however the test is spelled
+    heads = [n_ for n_ in g.nodes.values() if n_.kind == 'for' and '_registered_objects' in ctext(n_.ast.iter, FrameEnv(n_.frame))]
     o.count()
     okl = False
-    if len(loops) == 1 and ast.unparse(loops[0].iter) == 'self._registered_objects.items()' and isinstance(loops[0].target, ast.Tuple) and len(loops[0].target.elts) == 2:
-        ob_, ac_ = [e.id for e in loops[0].target.elts]
-        body = loops[0].body
-        if len(body) == 1 and isinstance(body[0], ast.If):
-            t = ast.unparse(body[0].test).replace(' is ', ' == ')
-            b1, b2 = body[0].body, body[0].orelse
-            if t in (f'{ac_} != None',):
-                b1, b2 = b2, b1
-                t = f'{ac_} == None'
+    why = ''
+    if len(heads) == 1 and ctext(heads[0].ast.iter, FrameEnv(heads[0].frame)) == 'self._registered_objects.items()' \
+            and isinstance(heads[0].ast.target, ast.Tuple) and len(heads[0].ast.target.elts) == 2 and all(isinstance(e, ast.Name) for e in heads[0].ast.target.elts):
+        head = heads[0]
+        ob_, ac_ = [e.id for e in head.ast.target.elts]
 
-            def call_of(blk):
-                return blk[0].value if len(blk) == 1 and isinstance(blk[0], ast.Expr) and isinstance(blk[0].value, ast.Call) else None
-            c1, c2 = call_of(b1), call_of(b2)
+        def m_override(test, frame):
+            """`action == None` <=> no override"""
+            t = test
+            if isinstance(t, ast.Compare) and len(t.ops) == 1 and isinstance(t.comparators[0], ast.Constant) and t.comparators[0].value is None \
+                    and ctext(t.left, FrameEnv(frame)) == ac_:
+                if isinstance(t.ops[0], (ast.Eq, ast.Is)):
+                    return False
+                if isinstance(t.ops[0], (ast.NotEq, ast.IsNot)):
+                    return True
+            if ctext(t, FrameEnv(frame)) == ac_:
+                return True
+            return None
 
-            def nowstate(args):
-                return len(args) == 2 and N.norm(args[0]).is_({'NOW': 1}) and N.norm(args[1]).key() == 'self._state'
-            if t == f'{ac_} == None' and c1 is not None and c2 is not None:
-                d_ok = ast.unparse(c1.func) == 'self.default_action' and len(c1.args) == 3 and ast.unparse(c1.args[0]) == ob_ and nowstate(c1.args[1:])
-                o_ok = ast.unparse(c2.func) == ac_ and len(c2.args) == 4 and [ast.unparse(x) for x in c2.args[:2]] == ['self', ob_] and nowstate(c2.args[2:])
-                okl = d_ok and o_ok and not any(isinstance(x, (ast.Break, ast.Continue, ast.Return)) for x in ast.walk(loops[0]))
+        def nowstate(args, frame):
+            return len(args) == 2 and N.norm(args[0], FrameEnv(frame)).is_({'NOW': 1}) and N.norm(args[1], FrameEnv(frame)).key() == 'self._state'
+
+        def call_hook(an_, n, before, after):
+            st = after
+            for cl in calls_at(an_.g, n):
+                env_ = FrameEnv(n.frame)
+                f_ = ctext(cl.func, env_)
+                if f_ == 'self.default_action':
+                    good = len(cl.args) == 3 and not cl.keywords and ctext(cl.args[0], env_) == ob_ and nowstate(cl.args[1:], n.frame)
+                    st = st.with_flag(('default2' if 'default' in st.flags else 'default') if good else 'default-wrong-args')
+                elif f_ == ac_:
+                    good = len(cl.args) == 4 and not cl.keywords and [ctext(x, env_) for x in cl.args[:2]] == ['self', ob_] and nowstate(cl.args[2:], n.frame)
+                    st = st.with_flag(('override2' if 'override' in st.flags else 'override') if good else 'override-wrong-args')
+            return st
+        an3 = Analysis(P, g, ['#override'])
+        an3.refine_hooks.insert(0, dv.ghost_refiner([('#override', m_override)]))
+        an3.node_hooks.append(call_hook)
+        okl = True
+        for ov in 'TF':
+            s0 = State({'#override': ov})
+            res3 = an3.run([s0], start=[m for l, m in g.succ[head.id] if l == 'T'], stop=[head.id])
+            back = res3.at(head.id)
+            left = [st for nid in (g.exit,) for st in res3.at(nid)]
+            if not back or left:
+                okl, why = False, ' (an iteration can leave the loop before every object was served)'
+            for st in back:
+                fl = {f for f in st.flags if f.startswith(('default', 'override'))}
+                if fl != ({'override'} if ov == 'T' else {'default'}):
+                    okl, why = False, f' (an object {"with" if ov == "T" else "without"} an override gets {sorted(fl) or "no call"})'
     if not okl:
         o.fail(P, 'ActionScheduler._update_state', 'for obj, action in self._registered_objects.items(): ...',
-               'the action is not invoked once per registered object in registration order with (object, now, state) / (scheduler, object, now, state)', file=c.mod.path, line=fn.lineno)
+               'the action is not invoked once per registered object in registration order with (object, now, state) / (scheduler, object, now, state)' + why, file=c.mod.path, line=fn.lineno)
     else:
         o.witness('action-loop')
-        o.sample({'loop': ast.unparse(loops[0]).split('\n')[0], 'line': loops[0].lineno})
+        o.sample({'loop': heads[0].src(), 'line': heads[0].line})
+    # the actions are performed by state changes only: nothing else (a registration, a query) invokes default_action or a stored override
+    owners = inv.covered(P, {'_update_state'})
+    for s_ in inv.method_calls(P, 'default_action'):
+        if s_.cls is not None and c in s_.cls.mro:
+            o.count()
+            if s_.func is None or s_.func.name not in owners:
+                o.fail(P, s_.ctx, s_.node, 'an action is performed outside a state change: an object would receive an action call that belongs to no state change it was registered for',
+                       file=s_.mod.path, line=s_.line)
     pg = P.lookup_prop(c, 'current_state', 'get')
     o.count()
     if not pg or ast.unparse(pg[1].body[-1]) != 'return self._state':
